@@ -60,7 +60,7 @@ def cases(tier, seed):
                     cs.append({'kind': 'sweep', 'K': K, 'd': d, 'r': r, 'g': g, 'pos': pos,
                                'style': style, 'bn': (K + r) % 2 == 0, 'fold': (g + d) % 2 == 0,
                                'bias': (r + d) % 3 != 0, 'seed': seed * 7919 + len(cs)})
-    nprog = 500 if tier == 'quick' else 6000
+    nprog = 500 if tier == 'quick' else 16000
     modes = ['binary', 'mixed', 'adversarial', 'normal', 'allpruned', 'binary', 'mixed', 'open']
     for i in range(nprog):
         cs.append({'kind': 'random', 'prog_seed': seed * 1000003 + i,
